@@ -52,6 +52,9 @@ structure StepOut where
   model : String
   oracle : List String := []
   nontrivial : Bool := false
+  /-- what identifies the situation for the `distinct` count (default: the op line itself);
+  set it when the same op text occurs in many different states -/
+  key : Option String := none
 
 /-- Generic replay loop for a model with state `σ`. -/
 def replay {σ : Type} (init : σ) (step : σ → String → String → σ × StepOut)
@@ -67,8 +70,9 @@ def replay {σ : Type} (init : σ) (step : σ → String → String → σ × St
     t := { t with ops := t.ops + 1 }
     if out.nontrivial then
       t := { t with nontrivial := t.nontrivial + 1 }
-      if !seen.contains op then
-        seen := seen.insert op
+      let k := out.key.getD (op ++ " => " ++ im)
+      if !seen.contains k then
+        seen := seen.insert k
         t := { t with distinct := t.distinct + 1 }
     if out.model != im then
       t := { t with diffs := t.diffs + 1 }
